@@ -8,6 +8,7 @@
 package stack
 
 import (
+	"strings"
 	"fmt"
 	"io"
 	"net"
@@ -158,7 +159,38 @@ func agentMain() {
 // Init must be the first thing main does: it turns the process into ssync or the sync agent when it
 // was re-executed as one of them (and then does not return).
 func Init() {
-	reexec.Register("ssync", ssync.Main)
+	// ssync is what the sync agent runs for a file transfer.  A marker file in the sender's working
+	// directory (the source replica's directory) makes ONE transfer of a snapshot data file end the way
+	// a transfer cut in the middle does: the second half of the file never reaches the destination (it
+	// stays a hole there) and the sender exits with an error.
+	reexec.Register("ssync-real", ssync.Main)
+	reexec.Register("ssync", func() {
+		args := os.Args[1:]
+		src := ""
+		if len(args) > 0 && !strings.HasPrefix(args[len(args)-1], "-") {
+			src = args[len(args)-1]
+		}
+		daemon := false
+		for _, a := range args {
+			if a == "-daemon" {
+				daemon = true
+			}
+		}
+		target := os.Getenv("VERIF_SSYNC_FAULT_TARGET")
+		if _, err := os.Stat(".verif-ssync-fault"); err != nil || daemon || target == "" || !strings.HasSuffix(src, ".img") {
+			ssync.Main()
+			return
+		}
+		os.Remove(".verif-ssync-fault")
+		cmd := reexec.Command(append([]string{"ssync-real"}, args...)...)
+		cmd.Stdout, cmd.Stderr = os.Stdout, os.Stderr
+		cmd.Run()
+		if st, err := os.Stat(target + "/" + src); err == nil {
+			os.Truncate(target+"/"+src, st.Size()/2/4096*4096)
+			os.Truncate(target+"/"+src, st.Size())
+		}
+		os.Exit(1)
+	})
 	// sfold is what the sync agent runs for a "fold" (coalesce) request; a marker file in the agent's
 	// working directory (the replica directory) makes it fail the way a full disk or a killed child does
 	reexec.Register("sfold", func() {
